@@ -346,7 +346,7 @@ func (g *Gen) colorFunction() string {
 			a = fmt.Sprint(g.r.Intn(361))
 		}
 		b, c = g.pctArg(), g.pctArg()
-		if g.known && modern && g.chance(1, 4) { // N04: numbers for saturation / lightness
+		if modern && g.chance(1, 6) { // (N04 = K84 repaired) numbers for saturation / lightness
 			b, c = fmt.Sprint(g.r.Intn(101)), fmt.Sprint(g.r.Intn(101))
 		}
 	}
